@@ -489,6 +489,9 @@ impl Run<'_> {
         if let Some(e) = self.host.take_errors().into_iter().next() {
             return Err(viol(id, "bridge_invariant", format!("step {si}: {e}")));
         }
+        if let Some(what) = &obs.done_with_pending {
+            return Err(viol(id, "done_while_output_pending", format!("step {si}: {what}")));
+        }
         if obs.reentered {
             return Err(viol(id, "update_reentered", format!("step {si}: update was entered while another update was running")));
         }
